@@ -909,3 +909,22 @@ Proof.
     + destruct (sim_dfgetfs _ _ _ _ _ _ _ HSD Hop HM HSp) as [X|[X|X]]; auto.
     + destruct (sim_dflablist _ _ _ _ _ _ _ _ HSD HM HSp) as [X|X]; auto.
 Qed.
+
+(** whole histories *)
+Fixpoint run_ok_full (h : hstate) (a : state) (ops : list op) : Prop :=
+  match ops with
+  | [] => True
+  | o :: t => let '(h', mr) := mstep h o in let '(a', sr) := step a (fill_full o mr) in
+              sr = RUnspec \/ exhausted sr mr \/ enum_capped a o \/ (accepts_full sr mr /\ run_ok_full h' a' t)
+  end.
+
+Theorem full_run_sim : forall ops h a, SimD h a -> Forall full_op ops -> run_ok_full h a ops.
+Proof.
+  induction ops as [|o t IH]; simpl; intros h a HS Hops; [exact I|]. inversion Hops; subst.
+  destruct (mstep h o) as [h' mr] eqn:EM. destruct (step a (fill_full o mr)) as [a' sr] eqn:ES.
+  destruct (full_step_sim _ _ _ _ _ _ _ HS H1 EM ES) as [X|[X|[X|[X Y]]]]; auto.
+  right. right. right. split; [assumption | apply IH; assumption].
+Qed.
+
+Lemma SimD_init : SimD hinit init.
+Proof. split; [exact Sim_init|]. intros _ k b _ Hb. simpl in Hb. discriminate. Qed.
